@@ -1088,7 +1088,9 @@ PROPS['C15'] = dict(
                'the grammar rejects fails with its own number (parse_iter fold); .message/.warning append exactly one entry and touch '
                'nothing else, .error additionally fails, none of them is dispatched from an unselected branch (C08 fold).',
     level_note='the rendering "line: N" (fmt::Display) and the message text are dropped by extraction: bound by single-fault witnesses; errors raised '
-               'inside pass 0 (macro expansion) and inside an included file are not under contract',
+               'inside pass 0 are under contract as an identity (unit PASS0 #error_is: nesting too deep and an undefined macro are errors at the line of '
+               'the call, an error inside a body is passed on as it is -- unit COND gives it the stored number of the body line); a file that an '
+               '.include cannot find carries no line (the property does not list that fault)',
     technique='Verus postconditions on error locations over the extracted passes / Directive::parse / parse_iter (rule R1 keeps the location)',
     verus=['pass1', 'pass2', 'dir', 'cond', 'data', 'encv', 'expr', 'pass0', 'ctxu'],
     depends_on=['C10', 'C04', 'C08'],   # 'an undefined symbol, a duplicate label' (C10) and 'an operand of the wrong kind or out of range' (C04) fail the build: presupposed; `.error` / `.message` take effect exactly 'wherever they are assembled', i.e. in the selected branch (C08)
@@ -1188,7 +1190,7 @@ PROPS['C16'] = dict(
              'dictionary of valid, boundary and hostile texts, plus 23 multi-line programs and include trees (cyclic .equ, self-calling macros, '
              'unbalanced blocks, huge reservations, deep parentheses, a file including itself directly / through another file / through a macro, '
              '.includepath with / as working directory, a directory as main file), run natively with crash/timeout detection'],
-    not_decided=['grammar action code, macro_expand, CLI: witnesses only'],
+    not_decided=['grammar action code, Display / String::replace inside macro_expand, CLI: witnesses only'],
 )
 
 
